@@ -24,9 +24,17 @@ import (
 func TestC48(t *testing.T) {
 	m := mon.New(t, "C48")
 	defer m.Done()
-	m.Rule("streams: roundtrip = random ocsp.Response templates (status × reason × time classes × serial classes incl. >64-bit and leading 0x80/0xff × extensions × issuer hash × signature algorithm × responder = issuer|delegate × embedded cert) through CreateResponse → ParseResponse/ParseResponseForCert, compared with the template, with an independent DER walker (ref/ocspref) and with a stdlib signature check over the walker's tbs bytes; clock = CreateResponse inside a testing/synctest bubble at chosen instants (ProducedAt); binding = who-signed-what scenarios (issuer/delegate/attacker/other CA × embedded certificate lists × verifying certificate) produced by CreateResponse or by the walker's TLV builder, verdict from key identities known by construction; mutate = EVERY byte of base responses altered (xor 1, xor random, …) and re-parsed with the issuer, region of the byte from the walker; relabel = valid direct and delegated responses whose unsigned outer signatureAlgorithm is rewritten (lengths re-encoded) to each of 24 OIDs × 4 parameter forms (MD2/MD4/MD5/SHA-1/SHA-2 with RSA, RSASSA-PSS, DSA, ECDSA, Ed25519/Ed448, digest OIDs, unknown arcs), once with the original tbs and once with the tbs of another response (good instead of revoked): acceptance through ParseResponse/ParseResponseForCert/CheckSignatureFrom is a violation unless a stdlib verification under the STATED algorithm succeeds; multi =built multi-status responses through ParseResponseForCert; totality = random DER, spliced/truncated/mutated responses through all parsers; request = CreateRequest/Marshal → ParseRequest; ossl-* = OpenSSL verifies/prints Go-created responses and Go parses OpenSSL-created ones. Distinct key = stream + class tuple (key kind, alg, serial/time class, scenario, region); non-trivial = reached an oracle comparison")
+	m.Rule("streams: conc = shared-value concurrency: 6 goroutines call ParseResponse/ParseResponseForCert/CheckSignatureFrom/ParseRequest/CreateRequest/CreateResponse at once on the same issuer certificates, response/request bytes and (yielding) signer, after a barrier, each in its own task order, half of the rounds under GOMAXPROCS(1); outcomes are compared after the join with a single-threaded run of the same calls (CreateResponse: walker + stdlib verification + template); also built with the race detector (variant verif,race runs only this stream); roundtrip =random ocsp.Response templates (status × reason × time classes × serial classes incl. >64-bit and leading 0x80/0xff × extensions × issuer hash × signature algorithm × responder = issuer|delegate × embedded cert) through CreateResponse → ParseResponse/ParseResponseForCert, compared with the template, with an independent DER walker (ref/ocspref) and with a stdlib signature check over the walker's tbs bytes; clock = CreateResponse inside a testing/synctest bubble at chosen instants (ProducedAt); binding = who-signed-what scenarios (issuer/delegate/attacker/other CA × embedded certificate lists × verifying certificate) produced by CreateResponse or by the walker's TLV builder, verdict from key identities known by construction; mutate = EVERY byte of base responses altered (xor 1, xor random, …) and re-parsed with the issuer, region of the byte from the walker; relabel = valid direct and delegated responses whose unsigned outer signatureAlgorithm is rewritten (lengths re-encoded) to each of 24 OIDs × 4 parameter forms (MD2/MD4/MD5/SHA-1/SHA-2 with RSA, RSASSA-PSS, DSA, ECDSA, Ed25519/Ed448, digest OIDs, unknown arcs), once with the original tbs and once with the tbs of another response (good instead of revoked): acceptance through ParseResponse/ParseResponseForCert/CheckSignatureFrom is a violation unless a stdlib verification under the STATED algorithm succeeds; multi =built multi-status responses through ParseResponseForCert; totality = random DER, spliced/truncated/mutated responses through all parsers; request = CreateRequest/Marshal → ParseRequest; ossl-* = OpenSSL verifies/prints Go-created responses and Go parses OpenSSL-created ones. Distinct key = stream + class tuple (key kind, alg, serial/time class, scenario, region); non-trivial = reached an oracle comparison")
 	m.Assume("crypto/x509, crypto/rsa, crypto/ecdsa, encoding/asn1 (standard library) are trusted; ref/ocspref walker/builder is validated by its own tests (real-world response, OpenSSL accepts its output); key identities in the harness decide who signed what")
 	w := &c48w{t: t, m: m}
+	if mon.RaceBuild {
+		// race-detector variant: only the shared-value concurrency stream (the detector costs 5-15x)
+		w.concurrent()
+		w.concGates()
+		return
+	}
+	w.concurrent()
+	w.concGates()
 	w.roundtrip()
 	w.clock()
 	w.binding()
